@@ -178,35 +178,37 @@ theorem bicgLoop_spec (S : Sys V α) (hl : Lawful S) (c : Config α) (b rh0 : V)
 
 theorem bicgIntern_spec (S : Sys V α) (hl : Lawful S) (c : Config α) (st0 : State α) (b x r : V)
     (res : Result V α) (hr : r = resid S b x) (h : bicgIntern S c st0 x r = some res) :
-    res.status ≠ .undefined ∧ res.status ≠ .progress ∧
-      (res.status ≠ .aborted → res.st.defInit = S.nrm r ∧
-        ((res.st.numIter = 0 ∧ res.x = x ∧ res.status = .success ∧ (S.nrm r < c.tolAbsLow ∨ S.nrm r ≤ c.eps2)) ∨
+    res.status ≠ .undefined ∧ res.status ≠ .progress ∧ res.st.defInit = S.nrm r ∧
+      (res.status ≠ .aborted →
+        ((res.st.numIter = 0 ∧ res.x = x ∧ res.st.defCur = S.nrm r ∧ res.status = .success ∧
+            (S.nrm r < c.tolAbsLow ∨ S.nrm r ≤ c.eps2)) ∨
          (0 < res.st.numIter ∧ (HalfExit S c b res ∨ FinalStep S c b res)))) := by
   simp only [bicgIntern] at h
+  rcases hsi : setInitialDefect c st0 true (S.nrm r) with ⟨status, st⟩
+  rw [hsi] at h
+  obtain ⟨hst, _, hsu, hpr, hall⟩ := setInitial_spec c st0 true _ _ _ hsi
+  simp only at h
   split at h
-  · simp only [Option.some.injEq] at h
+  · rename_i hne
+    simp only [Option.some.injEq] at h
     subst h
-    exact ⟨by simp, by simp, by simp⟩
-  · rcases hsi : setInitialDefect c st0 true (S.nrm r) with ⟨status, st⟩
-    rw [hsi] at h
-    obtain ⟨hst, _, hsu, hpr, hall⟩ := setInitial_spec c st0 true _ _ _ hsi
-    simp only at h
-    split at h
-    · rename_i hne
-      simp only [Option.some.injEq] at h
+    subst hst
+    have hne' : status ≠ .progress := by simpa using hne
+    refine ⟨?_, hne', rfl, fun hna => Or.inl ⟨rfl, rfl, rfl, ?_⟩⟩
+    · rcases hall with e | e | e <;> simp_all
+    · rcases hall with e | e | e
+      · exact absurd e hna
+      · exact ⟨e, (hsu.1 e).2⟩
+      · exact absurd e hne'
+  · split at h
+    · simp only [Option.some.injEq] at h
       subst h
       subst hst
-      have hne' : status ≠ .progress := by simpa using hne
-      refine ⟨?_, hne', fun hna => ⟨rfl, Or.inl ⟨rfl, rfl, ?_⟩⟩⟩
-      · rcases hall with e | e | e <;> simp_all
-      · rcases hall with e | e | e
-        · exact absurd e hna
-        · exact ⟨e, (hsu.1 e).2⟩
-        · exact absurd e hne'
+      exact ⟨by simp, by simp, rfl, by simp⟩
     · have := bicgLoop_spec S hl c b r _ x r _ _ _ st _ _ res hr (by subst hst; simp)
         (by subst hst; simp [fuelOf]) h
       subst hst
-      exact ⟨this.2.1, this.2.2.1, fun hna => ⟨this.1, Or.inr (this.2.2.2 hna)⟩⟩
+      exact ⟨this.2.1, this.2.2.1, this.1, fun hna => Or.inr (this.2.2.2 hna)⟩
 
 theorem pmrLoop_spec (S : Sys V α) (hl : Lawful S) (c : Config α) (b : V) :
     ∀ (fuel : Nat) (x r s : V) (st : State α) (calls : Nat) (hist : List α) (res : Result V α),
